@@ -83,6 +83,15 @@ fn case<G: CurveTag>(bytes: &[u8], col: &mut Collector, max_gates: usize, large:
         col.note("prover consumed more than 32 external bytes");
     }
 
+    // a caller RNG that cannot deliver must not lead to a proof (one keyed without external randomness)
+    if ch.chance(40) {
+        let pf = run_prover::<G>(&prog, &ProveOpts { failing_rng: true, ..Default::default() });
+        if pf.proof.is_some() {
+            return Err(Failure::new("C09:proof-without-external-randomness", "the prover emitted a proof although the caller's RNG failed to deliver any randomness", pj("failing external RNG".into())));
+        }
+        col.class("failing-external-rng");
+    }
+
     // ---- 2. seed laws --------------------------------------------------------------------
     let p_same = run_prover::<G>(&prog, &ProveOpts::default());
     if p_same.bytes != p0.bytes {
